@@ -93,8 +93,34 @@ class ImmutabilityMonitor(Monitor):
                         ('imm', ev.name, ev.depth > 0))
             self.ctx.ops['immutability:name:' + ev.name] += 1
 
+    # operations whose result legitimately is a view of (or the same object as) an argument, as in NumPy
+    VIEW_OK = {'__getitem__', 'transpose', 'get_transpose', 'reshape', 'real', 'imag', 'get_flat', 'coeff_op', 'FtoJT', 'JTtoF',
+               '__iadd__', '__isub__', '__imul__', '__itruediv__', '__idiv__', 'set_zero', 'shift', 'iouter', 'broadcast',
+               'symvec', 'vecsym', 'as_utpm', 'combine_blocks'}
+
+    def _alias(self, ev, res):
+        if ev.kind == 'tracer' or ev.name.startswith('pb_') or ev.name in self.VIEW_OK:
+            return
+        outs = _datas(res)
+        if not outs:
+            return
+        for (path, obj, before) in ev.snaps:
+            if path[:2] == ('k', 'out'):
+                continue          # results are written into the caller's out= buffers by design
+            now = obj.data if isinstance(obj, UTPM) else obj
+            if now.size == 0:
+                continue
+            for o in outs:
+                if o.size and np.shares_memory(o, now):
+                    self.ctx.violation('result-aliases-argument:%s' % ev.name, {'call': ev.name, 'argument': list(path), 'depth': ev.depth,
+                                                                               'dtype': str(now.dtype)})
+                    return
+        self.ctx.ok('no-alias:op', ('noalias', ev.name))
+
     def on_return(self, ev, res):
         self._check(ev, False)
+        if ev.depth == 0:
+            self._alias(ev, res)
 
     def on_raise(self, ev, exc):
         self._check(ev, True)
